@@ -642,6 +642,12 @@ func (encryptor *QueryDataEncryptor) encryptValuesWithPlaceholders(ctx context.C
 			copy(values, oldValues)
 		}
 		changed = true
+		// the statement may use more placeholders than the Bind message carries parameters
+		if valueIndex >= len(values) {
+			logrus.WithFields(logrus.Fields{"placeholder": columnName, "index": valueIndex, "values": len(values)}).
+				Warning("Invalid placeholder index")
+			return oldValues, false, base.ErrInvalidPlaceholder
+		}
 		setting := schema.GetColumnEncryptionSettings(columnName)
 		valueData, err := values[valueIndex].GetData(setting)
 		if err != nil {
